@@ -152,6 +152,12 @@ func structural(e *emitter, r *hx.Rng, b *base) {
 	ident := "com.example.verif"
 
 	putF("none", 0, b.f)
+	// --- the same CMS value in BER forms (Apple's own tools write indefinite lengths): the signature stays valid
+	if len(cms) > 8 {
+		for _, kind := range []string{"apple", "inner", "nonmin", "deep"} {
+			put("cms-ber-"+kind, 0, replaced(b.items, 0x10000, wrapBlob(0xfade0b01, berVariant(cms[8:], kind))))
+		}
+	}
 	e.verify(n+":none-skipdigests", 0, b.f, info, res, true)
 	// --- code
 	putF("code-flip", 1, altered(b.f, b.ss))
